@@ -33,6 +33,26 @@ def rt_str(v: str, thr: int, split: int) -> bool:
             ch_env.cleanup_real(root)
 
 
+def rt_str_file(v: str) -> bool:
+    """
+    pre: len(v) <= 2
+    post: _
+    """
+    # the file-backed text path alone (threshold 0, one chunk): every str of up to two arbitrary code points -- incl. lone
+    # surrogates and pairs of them -- comes back identical or is rejected with UnicodeEncodeError
+    core, fs, root = ch_env.setup(0)
+    try:
+        d = core.Disk(root, 0, 4)
+        try:
+            size, mode, fn, out = _roundtrip(core, d, v)
+        except UnicodeEncodeError:
+            return True
+        return type(out) is str and out == v and len(out) == len(v)
+    finally:
+        if ch_env.MODE == 'real':
+            ch_env.cleanup_real(root)
+
+
 def rt_bytes(v: bytes, thr: int, split: int) -> bool:
     """
     pre: len(v) <= 3 and 0 <= thr <= 4 and 0 <= split <= 3
